@@ -137,7 +137,7 @@ func init() {
 		runNodeMessage(cr)
 		cr.explanation = "BaseNodeService.ProcessMessage (real fsmservice, repositories, LevelDBState, FSM stack) executed from SSA on one symbolic board message against a store holding the round in each representative reachable state; obligation: not (registered sender and Verify(PubKeys[sender], Data, Signature)) => error and byte-identical store and board (all rounds, operation pool, tombstones, signatures)."
 	}}
-	checkDefs["C18"] = &checkDef{level: "other", pkgs: []string{nodePkg, reqPkg}, run: func(cr *CheckRun) {
+	checkDefs["C18"] = &checkDef{level: "other", pkgs: []string{nodePkg, reqPkg, typesPkg}, run: func(cr *CheckRun) {
 		cr.owner = func(l string) bool { return hasPrefixAny(l, "rejected-durable-noop", "nopanic") }
 		cr.groupKey = func(v Violation) string {
 			if strings.HasPrefix(v.Label, "rejected-durable-noop") {
@@ -159,6 +159,7 @@ func init() {
 			tj = append(tj, Job{Pkg: reqPkg, Fn: "VF_C18_Tasks", Opts: defaultOpts(), Tag: fmt.Sprintf("tasks=%d", nt), Case: "TasksToMessages",
 				Params: map[string]string{"ntasks": fmt.Sprint(nt)}})
 		}
+		tj = append(tj, Job{Pkg: typesPkg, Fn: "VF_C18_OperationHelpers", Opts: defaultOpts(), Tag: "arbitrary operation", Case: "Operation.Filename"})
 		tr := cr.Pool.Run(tj)
 		cr.absorb(tj, tr)
 		cr.bounds["signing_tasks"] = "1 task (thorough: 1..2), each explicit (payload 0..1 bytes) or a baked range with symbolic int bounds: any range starting outside the list, ranges of length <= 2 starting in the first 64 or last 2 positions"
